@@ -5,7 +5,19 @@
 EXTENDS CodecLife, Pools
 VARIABLES stage, part, m
 
-Parts == {"KE", "ID", "CERT", "AUTH", "NV", "N", "D", "TS", "CP", "SA", "EAPaka", "EAPother", "long", "hdr", "max"} \cup { "pair" \o k : k \in PKindSet }
+TwinSet(S) == LET a == CHOOSE x \in S : TRUE
+                  b == CHOOSE y \in S : BodyLen(y) # BodyLen(a) IN
+              { Msg(1, << a, b >>), Msg(1, << b, a >>), Msg(1, << a, b, a >>) }
+EapTwins == { CHOOSE e \in EapAkas : TRUE, CHOOSE e \in EapOthers : TRUE, CHOOSE e \in EapOthers : e # (CHOOSE f \in EapOthers : TRUE) }
+\* messages the encoder refuses at the second or a later payload (outside the encodable domain), and messages it encodes
+BadSecond == { Msg(1, << Rep("N"), [k |-> "TSi", sel |-> << >>] >>),
+               Msg(2, << Rep("NONCE"), Rep("KE"), [k |-> "SA", props |-> << [num |-> 1, proto |-> 1, spi |-> << >>, tr |-> << >>] >>] >>),
+               Msg(3, << Rep("KE"), [k |-> "D", proto |-> 3, spisz |-> 4, num |-> 3, spis |-> << D(4, 18), D(4, 19) >>] >>),
+               Msg(4, << Rep("V"), Rep("IDi"), [k |-> "V", data |-> D(70000, 3)] >>),
+               Msg(1, << Rep("IDr"), [k |-> "CP", cft |-> 1, attrs |-> << >>] >>) }
+GoodAfter == { Msg(1, << Rep("IDi"), Rep("AUTH") >>), Msg(3, << Rep("N") >>), Msg(5, << Rep("SA"), Rep("TSi"), Rep("TSr") >>) }
+
+Parts == {"KE", "ID", "CERT", "AUTH", "NV", "N", "D", "TS", "CP", "SA", "EAPaka", "EAPother", "long", "hdr", "max", "twins", "failok"} \cup { "pair" \o k : k \in PKindSet }
 PartSet(p) ==
   CASE p = "KE" -> { Msg(1, << x >>) : x \in KEs }
     [] p = "ID" -> { Msg(1, << x >>) : x \in IDs }
@@ -22,12 +34,17 @@ PartSet(p) ==
     [] p = "long" -> { Msg(1, c) : c \in ChainsLong }
     [] p = "hdr" -> { Msg(h, << Rep("N") >>) : h \in Hdrs } \cup { Msg(h, << >>) : h \in Hdrs }
     [] p = "max" -> { Msg(2, << x >>) : x \in (IF Thorough THEN MaxSized ELSE { y \in MaxSized : y.k \in {"KE", "N", "EAP"} }) }
+    \* two payloads of one pool with different contents and sizes next to each other (all ordered pairs of SA payloads)
+    [] p = "twins" -> UNION { TwinSet(S) : S \in { KEs, IDs, CERTs, AUTHs, NVs, Ns, TSs, CPs } }
+                      \cup { Msg(1, << q[1], q[2] >>) : q \in { r \in SAs \X SAs : r[1] # r[2] } }
+                      \cup { Msg(1, << [k |-> "EAP", eap |-> q[1]], [k |-> "EAP", eap |-> q[2]] >>) : q \in { r \in EapTwins \X EapTwins : r[1] # r[2] } }
+    [] p = "failok" -> { [bad |-> b, good |-> g] : b \in BadSecond, g \in GoodAfter }
     [] OTHER -> LET a == CHOOSE k \in PKindSet : p = "pair" \o k IN { Msg(1, << Rep(a), Rep(b) >>) : b \in PKindSet }
 
 Init == stage = 0 /\ part = "" /\ m = << >>
 Next == \/ stage = 0 /\ stage' = 1 /\ part' \in Parts /\ m' = << >>
         \/ stage = 1 /\ stage' = 2 /\ part' = part /\ m' \in PartSet(part)
         \/ stage = 2 /\ UNCHANGED << stage, part, m >>
-Emit == stage = 2 => PrintT(ToJson(CodecVector(m)))
-Sound == stage = 2 => RefCodecSound(m)
+Emit == stage = 2 => PrintT(ToJson(IF part = "failok" THEN FailOkVector(m.bad, m.good) ELSE CodecVector(m)))
+Sound == stage = 2 => IF part = "failok" THEN RefCodecSound(m.good) /\ ~Encodable(m.bad) ELSE RefCodecSound(m)
 =============================================================================
